@@ -123,6 +123,7 @@ def main(argv):
     ex = PyvcExecutor(P.contracts, P.lib, pid, P.shapes)
     ex.axioms = P.axioms
     ex.specns = P.specns
+    ex.enums = getattr(P, 'enums', {})
     ex.vacuity = []
     functions = []
     # ---- generate obligations from the real code
